@@ -8,6 +8,10 @@ A schema description is JSON-able:
                 'tgt': 1, 'tkeys': ['Id'], 'tmany': bool, 'tcond': bool, 'tphrase': ''}, …]}
 `id` is the name of the class's own (non-referential) unique_id attribute filled by the
 IntegerGenerator (one value per created instance), or None when the class has none.
+
+Two construction routes: `Model(schema)` + ops through the API, and `Model.from_sql(schema, prefix_ops, idents)` which
+writes schema + population of a history prefix as SQL text and builds it with xtuml.ModelLoader (family `loaded` of
+the four properties: `'route': 'sql', 'prefix': k` in the case).
 """
 from sexp import Sym, dumps
 
@@ -89,6 +93,180 @@ def op_sexp(op):
     raise ValueError(op)
 
 
+# ---------------------------------------------------------------------------------------------------- the LOADER route
+# The same population can be reached through the API (define_class / define_association / formalize / new / relate) or by
+# loading SQL text (CREATE TABLE / CREATE ROP / CREATE UNIQUE INDEX / INSERT) with xtuml.ModelLoader.  `Model.from_sql`
+# builds the state after a history PREFIX the second way; the rest of the history then runs on a loader-built model.
+
+def _resolve(schema, k1, k2, rel, phrase):
+    """the association and direction a relate(x : k1, y : k2, rel, phrase) addresses (first match), or None"""
+    for i, a in enumerate(schema['assocs']):
+        if a['rel'] != rel:
+            continue
+        if a['tgt'] == k1 and a['src'] == k2 and a['tphrase'] == phrase:
+            return i, 'fwd'
+        if a['src'] == k1 and a['tgt'] == k2 and a['sphrase'] == phrase:
+            return i, 'rev'
+    return None
+
+
+def _prefix_pairs(schema, ops):
+    """relational reading of a prefix: kinds of the created instances and, per association, the (target, source) pairs that
+    hold after its ACCEPTED relate / unrelate ops; delete ops are not expressible as text and are dropped"""
+    kinds = [o[1] for o in ops if o[0] == 'new']
+    pairs = [[] for _ in schema['assocs']]
+    made = 0
+    for o in ops:
+        if o[0] == 'new':
+            made += 1
+            continue
+        if o[0] not in ('relate', 'unrelate'):
+            continue
+        if o[1] >= made or o[2] >= made:
+            raise ValueError('prefix op %r uses an instance that does not exist yet' % (o,))
+        hit = _resolve(schema, kinds[o[1]], kinds[o[2]], o[3], o[4])
+        if hit is None:
+            continue
+        i, d = hit
+        x, y = (o[1], o[2]) if d == 'fwd' else (o[2], o[1])
+        a, ps = schema['assocs'][i], pairs[i]
+        if o[0] == 'relate':
+            if (x, y) in ps:
+                continue
+            if (not a['smany'] and any(p[0] == x for p in ps)) or (not a['tmany'] and any(p[1] == y for p in ps)):
+                continue
+            ps.append((x, y))
+        elif (x, y) in ps:
+            ps.remove((x, y))
+    return kinds, pairs
+
+
+_CONFLICT = object()
+
+
+def _row_values(schema, kinds, pairs):
+    """the attribute values of every instance as a text row has to spell them: own values = what MetaClass.new hands out
+    (one generator value per non-referential unique_id attribute, typed defaults otherwise); a referential value = the
+    identifying value of the linked instance (None when unlinked, _CONFLICT when two links demand different values)"""
+    refnames = [set(k for a in schema['assocs'] if a['src'] == c for k in a['skeys']) for c in range(len(schema['classes']))]
+    own, drawn = [], 0
+    for k in kinds:
+        row = {}
+        for name, ty in schema['classes'][k]['attrs']:
+            if name in refnames[k]:
+                continue
+            T = ty.upper()
+            if T == 'UNIQUE_ID':
+                drawn += 1
+                row[name] = drawn
+            else:
+                row[name] = {'INTEGER': 0, 'STRING': '', 'BOOLEAN': False, 'REAL': 0.0}[T]
+        own.append(row)
+
+    def val(i, name, depth=0):
+        if name not in refnames[kinds[i]]:
+            return own[i].get(name)
+        if depth > 16:
+            return _CONFLICT
+        wanted = []
+        for ai, a in enumerate(schema['assocs']):
+            if a['src'] != kinds[i]:
+                continue
+            for rk, pk in zip(a['skeys'], a['tkeys']):
+                if rk == name:
+                    for (x, y) in pairs[ai]:
+                        if y == i:
+                            v = val(x, pk, depth + 1)
+                            if v not in wanted:
+                                wanted.append(v)
+        if not wanted:
+            return None
+        return wanted[0] if len(wanted) == 1 else _CONFLICT
+    return own, drawn, val
+
+
+def _expressible_pairs(schema, kinds, pairs):
+    """drop (latest first) the pairs a text row cannot express: the identifying value on the target side is null (a
+    referential identifier that is itself unlinked), or the referential attribute is shared with another link that
+    demands a different value"""
+    pairs = [list(ps) for ps in pairs]
+    while True:
+        own, drawn, val = _row_values(schema, kinds, pairs)
+        bad = None
+        for ai in range(len(pairs) - 1, -1, -1):
+            a = schema['assocs'][ai]
+            for (x, y) in reversed(pairs[ai]):
+                for rk, pk in zip(a['skeys'], a['tkeys']):
+                    vx, vy = val(x, pk), val(y, rk)
+                    if vx is None or vx is _CONFLICT or vy is _CONFLICT:
+                        bad = (ai, (x, y))
+                        break
+                if bad:
+                    break
+            if bad:
+                break
+        if bad is None:
+            return pairs
+        pairs[bad[0]].remove(bad[1])
+
+
+def canonical_prefix(schema, ops):
+    """a history of `new` and accepted `relate` ops that reaches, through the API, the state the loader builds from the text
+    of `ops`: the creations in their order, then per association (definition order) the links in the order
+    ModelLoader.populate_connections makes them (storage order of the referring instances).  Ops the text cannot express
+    (delete, links over null / conflicting referential values) are dropped."""
+    kinds, pairs = _prefix_pairs(schema, ops)
+    pairs = _expressible_pairs(schema, kinds, pairs)
+    out = [['new', k] for k in kinds]
+    for ai, a in enumerate(schema['assocs']):
+        for (x, y) in sorted(pairs[ai], key=lambda p: (p[1], p[0])):
+            out.append(['relate', x, y, a['rel'], a['tphrase']])
+    return out
+
+
+def _sql_literal(v, ty):
+    T = ty.upper()
+    if T == 'STRING':
+        return "'%s'" % ('' if v is None else str(v).replace("'", "''"))
+    if T == 'BOOLEAN':
+        return 'true' if v else 'false'
+    if T == 'REAL':
+        return repr(float(v or 0.0))
+    return '%d' % (v or 0)            # INTEGER / UNIQUE_ID; the null id is 0
+
+
+def _card(many, cond):
+    return ('M' if many else '1') + ('C' if cond else '') if (many or cond) else '1'
+
+
+def sql_text(schema, prefix_ops, idents=()):
+    """(text, number of generator values the rows stand for): schema, identifiers and the population after `prefix_ops`"""
+    for o in prefix_ops:
+        if o[0] not in ('new', 'relate'):
+            raise ValueError('a text prefix consists of new and relate ops: %r' % (o,))
+    kinds, pairs = _prefix_pairs(schema, prefix_ops)
+    if _expressible_pairs(schema, kinds, pairs) != pairs:
+        raise ValueError('the prefix holds links a text row cannot express (use canonical_prefix)')
+    own, drawn, val = _row_values(schema, kinds, pairs)
+    cname = lambda k: schema['classes'][k]['name']
+    q = lambda p: "'%s'" % p.replace("'", "''")
+    out = []
+    for c in schema['classes']:
+        out.append('CREATE TABLE %s (%s);' % (c['name'], ', '.join('%s %s' % (n, t) for n, t in c['attrs'])))
+    for a in schema['assocs']:
+        ends = []
+        for (k, keys, many, cond, phrase) in ((a['src'], a['skeys'], a['smany'], a['scond'], a['sphrase']),
+                                              (a['tgt'], a['tkeys'], a['tmany'], a['tcond'], a['tphrase'])):
+            ends.append('%s %s (%s)%s' % (_card(many, cond), cname(k), ', '.join(keys), (' PHRASE ' + q(phrase)) if phrase else ''))
+        out.append('CREATE ROP REF_ID %s FROM %s TO %s;' % (a['rel'], ends[0], ends[1]))
+    for (k, name, attrs) in idents:
+        out.append('CREATE UNIQUE INDEX %s ON %s (%s);' % (name, cname(k), ', '.join(attrs)))
+    for i, k in enumerate(kinds):
+        out.append('INSERT INTO %s VALUES (%s);' % (cname(k), ', '.join(_sql_literal(val(i, n), t)
+                                                                        for n, t in schema['classes'][k]['attrs'])))
+    return '\n'.join(out) + '\n', drawn
+
+
 class Model(object):
     """a real xtuml.MetaModel built from a schema description, with instances named by creation index"""
 
@@ -108,6 +286,46 @@ class Model(object):
             self.assocs.append(ass)
         self.insts = []
         self.index = {}
+
+    @classmethod
+    def from_sql(cls, schema, prefix_ops, idents=()):
+        """the model after `prefix_ops` (new + relate ops, see canonical_prefix), built by xtuml.ModelLoader from SQL text;
+        `insts`, `assocs`, `metaclasses` are in the same order as on the API route, and the id generator is where the API
+        route leaves it.  `idents` = [(class index, identifier name, attribute names)] become CREATE UNIQUE INDEX."""
+        x = _xtuml
+        text, drawn = sql_text(schema, prefix_ops, idents)
+        self = cls.__new__(cls)
+        self.schema = schema
+        self.sql = text
+        loader = x.ModelLoader()
+        loader.input(text)
+        gen = x.IntegerGenerator()
+        self.m = loader.build_metamodel(gen)
+        while self.m.id_generator.peek() <= drawn:      # past the values the rows stand for (the loader's own creations
+            next(self.m.id_generator)                   # consume exactly these with the code as it is)
+        self.metaclasses = [self.m.find_metaclass(c['name']) for c in schema['classes']]
+        self.assocs = list(self.m.associations)
+        if len(self.assocs) != len(schema['assocs']):
+            raise ValueError('the loader defined %d associations for %d CREATE ROP statements' % (len(self.assocs), len(schema['assocs'])))
+        for a, ass in zip(schema['assocs'], self.assocs):
+            if ass.rel_id != a['rel'] or ass.source_link.to_metaclass is not self.metaclasses[a['src']] \
+                    or ass.target_link.to_metaclass is not self.metaclasses[a['tgt']]:
+                raise ValueError('association %s is not where the text defines it' % a['rel'])
+        self.insts = []
+        self.index = {}
+        seen = [0] * len(self.metaclasses)
+        for o in prefix_ops:
+            if o[0] != 'new':
+                continue
+            k = o[1]
+            pool = list(self.metaclasses[k].storage)
+            if seen[k] >= len(pool):
+                raise ValueError('the loader created %d instances of %s, the text holds more rows' % (len(pool), schema['classes'][k]['name']))
+            inst = pool[seen[k]]
+            seen[k] += 1
+            self.index[id(inst)] = len(self.insts)
+            self.insts.append(inst)
+        return self
 
     def idx(self, inst):
         return self.index.get(id(inst), -1)
@@ -171,6 +389,24 @@ class Model(object):
 
     def observe(self):
         return [self.pools(), self.links(), self.refs()]
+
+    def ref_copies(self):
+        """(instance index, key, value) for every instance that keeps a value of its own under a referential attribute name
+        (any letter case) in its dictionary: such a copy is what other spellings of the name and where_eq would read beside
+        the linked identifying value.  Neither route may leave one (MetaClass.new sets no referential default, the loader
+        removes the loaded copies once the links are made)."""
+        out = []
+        for i, inst in enumerate(self.insts):
+            k = self.metaclasses.index(_xtuml.get_metaclass(inst))
+            names = set(n.upper() for kk, n in refattrs_of(self.schema) if kk == k)
+            for key, v in inst.__dict__.items():
+                if key.upper() in names:
+                    out.append((i, key, v))
+        return out
+
+    def identifiers(self):
+        """per class the registered unique identifiers {name: sorted attribute names}"""
+        return [dict((n, sorted(a)) for n, a in mc.indices.items()) for mc in self.metaclasses]
 
     def deep_dump(self):
         """everything a client can observe of links and pools, incl. empty dict entries and raw __dict__"""
